@@ -487,13 +487,17 @@ def displayed(pal, cell, pages):
 EMBEDS_PALETTE = {'adf', 'xb', 'idf'}
 EMBEDS_FONT = {'adf', 'xb', 'idf'}
 
-def compare_pictures(fmt, a, b, what):
-    """a, b: dicts with w, h, ice, pal, fonts {slot: (fw, fh, len, data)}, cells. -> None or (class, detail)"""
+def compare_pictures(fmt, a, b, what, strict_pages=True):
+    """a, b: dicts with w, h, ice, pal, fonts {slot: (fw, fh, len, data)}, cells. -> None or (class, detail).
+    strict_pages: font page numbers must agree (our own pictures); otherwise (re-saved foreign files) the pages may be
+    renumbered as long as every cell shows the same glyph table: a 512-character XBin file whose cells all sit on page 1
+    is saved again as a one-font file"""
     if (a['w'], a['h']) != (b['w'], b['h']):
         return ('size', '%s: %dx%d became %dx%d' % (what, a['w'], a['h'], b['w'], b['h']))
     if (a['ice'] == 2) != (b['ice'] == 2):
         return ('mode', '%s: ice mode %d became %d' % (what, a['ice'], b['ice']))
-    pages = fmt == 'xb'
+    pages = fmt == 'xb' and strict_pages
+    page_map = {}
     for i, (x, y) in enumerate(zip(a['cells'], b['cells'])):
         dx, dy = displayed(a['pal'], x, pages), displayed(b['pal'], y, pages)
         if dx != dy:
@@ -501,14 +505,15 @@ def compare_pictures(fmt, a, b, what):
             cls = ['char', 'fg', 'bg', 'blink', 'page'][k]
             return ('cell-' + cls, '%s: cell (%d,%d) %r shows %r, after the round trip %r shows %r' %
                     (what, i % a['w'], i // a['w'], x, dx, y, dy))
+        if page_map.setdefault(x[4], y[4]) != y[4]:
+            return ('cell-page', '%s: cells of font page %d end up on pages %d and %d' % (what, x[4], page_map[x[4]], y[4]))
     if fmt in EMBEDS_PALETTE and a['pal'][:16] != b['pal'][:16]:
         return ('palette', '%s: palette %r became %r' % (what, a['pal'][:16], b['pal'][:16]))
     if fmt in EMBEDS_FONT:
-        used = sorted({c[4] for c in a['cells']}) or [0]
-        for s in used:
-            fa, fb = a['fonts'].get(s), b['fonts'].get(s)
+        for s, s2 in sorted(page_map.items()) or [(0, 0)]:
+            fa, fb = a['fonts'].get(s), b['fonts'].get(s2)
             if fa is None or fb is None or fa[1] != fb[1] or list(fa[3]) != list(fb[3]):
-                return ('font', '%s: glyphs of font page %d differ (height %s -> %s)' % (what, s, fa and fa[1], fb and fb[1]))
+                return ('font', '%s: glyphs of font page %d differ from those of page %d after the round trip (height %s -> %s)' % (what, s, s2, fa and fa[1], fb and fb[1]))
     return None
 
 _DEFAULT_FONT = []
@@ -661,7 +666,7 @@ def check_resave(fmt, comp, sauce, data_hex, r):
         return fail('save-refused', 'the loader accepted the file (%dx%d) but Buffer::to_bytes refuses to save what it loaded' % (d1['w'], d1['h']), [d1['w'], d1['h']])
     b, d2, _ = parse_rt(rest)
     if not isinstance(d2, dict): return fail('reload-refused', 'the re-saved file is refused by the loader')
-    c = compare_pictures(fmt, d1, d2, 'load+save+load')
+    c = compare_pictures(fmt, d1, d2, 'load+save+load', strict_pages=False)
     if c: return fail(c[0], c[1], [d2['w'], d2['h'], d2['ice']])
     return []
 
